@@ -86,6 +86,7 @@ PROPERTIES = {
                  "ariadne_codegen.graphql_schema_generators.schema", "ariadne_codegen.graphql_schema_generators.named_types",
                  "ariadne_codegen.graphql_schema_generators.fields", "ariadne_codegen.graphql_schema_generators.directives"],
         ord_replay=_bounded.lazy0("contracts.e2e_determinism", "replay_generation"),
+        bounded=[_bounded.lazy("contracts.e2e_determinism", "bounded_generation")],
         explanation="order-dependence obligations (set iteration must not reach emitted text) on the functions that handle sets",
         assumptions=["isort/black determinism; equality across two processes beyond order-independence is outside one call's contract"],
     ),
